@@ -182,6 +182,7 @@ def _generic_shapes(ctx):
 
 
 def r3_log_table(ctx):
+    K.duplicate_dict_keys(ctx, ['src/scinumtools/units/unit_types.py'], 'temperature and logarithmic conversion tables')
     _generic_shapes(ctx)
     conv = _class_literal(ctx, "LogarithmicUnitType", "conversions")
     process = _class_literal(ctx, "LogarithmicUnitType", "process")
